@@ -167,6 +167,7 @@ pub struct Sys<F: SemFlavor> {
     sem: Option<F::Sem>,
     probe: Option<F::Probe>,
     drop_handle: bool,
+    unwind: bool,
     fair: bool,
     k: usize,
     sizes: Vec<u8>,
@@ -308,6 +309,7 @@ impl<F: SemFlavor> System for Sys<F> {
             sem: Some(F::new(fair, p0)),
             probe: None,
             drop_handle: cfg.get_or("handle", 0) != 0,
+            unwind: cfg.flag("unwind"),
             fair,
             k,
             sizes,
@@ -511,7 +513,8 @@ impl<F: SemFlavor> System for Sys<F> {
             }
             Op::DropRel(i) => {
                 let (r, amt, armed) = self.rels.remove(i as usize);
-                if let Err(p) = lib(|| drop(r)) {
+                let res = if self.unwind { harness::drop_unwinding(r) } else { lib(|| drop(r)) };
+                if let Err(p) = res {
                     out.v("C01", "panic", format!("dropping a releaser panicked: {}", p));
                 }
                 if armed {
